@@ -405,3 +405,71 @@ func FieldOf(fa *ssa.FieldAddr) (name string, owner string) {
 	s = strings.TrimPrefix(s, "*")
 	return f.Name(), ShortPath(s)
 }
+
+// MResultOf matches result #idx of this particular call instruction (idx<0: any
+// result, or the call value itself), also when wrapped in a phi.
+func MResultOf(call ssa.CallInstruction, idx int) M {
+	cv, _ := call.(*ssa.Call)
+	base := func(t *Term) bool {
+		if cv == nil {
+			return false
+		}
+		if t.Op == "extract" && t.Call == cv && (idx < 0 || t.Idx == idx) {
+			return true
+		}
+		if (t.Op == "call" || t.Op == "len") && t.Call == cv && idx <= 0 {
+			return true
+		}
+		return false
+	}
+	return func(t *Term) bool {
+		if base(t) {
+			return true
+		}
+		if t.Op == "phi" {
+			for _, a := range t.Args {
+				if base(a) {
+					return true
+				}
+			}
+		}
+		return false
+	}
+}
+
+// OnlyVia reports whether every path from `from` to an instruction satisfying
+// target passes, for each need, an edge whose branch fact matches that need.
+// It returns the indices of needs that can be bypassed.
+func OnlyVia(from Point, target func(ssa.Instruction) bool, needs ...FactM) (bool, []int) {
+	var bypass []int
+	for i, n := range needs {
+		n := n
+		reach, _ := CanReach(from, target, ReachOpts{CutEdge: func(b *ssa.BasicBlock, k int) bool { return EdgeFactMatches(b, k, n) }})
+		if reach {
+			bypass = append(bypass, i)
+		}
+	}
+	return len(bypass) == 0, bypass
+}
+
+// StoredConst returns the constant text stored by st, if the stored value is a constant.
+func StoredConst(st *ssa.Store) (string, bool) {
+	t := TermOf(st.Val)
+	if t.Op == "const" {
+		return t.Name, true
+	}
+	return "", false
+}
+
+// FieldStores lists stores (in all given functions) to struct fields named `field`
+// whose owning struct type's short name matches ownerPat (e.g. "v1beta1.CommonStatus").
+func FieldStores(fns []*ssa.Function, ownerPat, field string) []*ssa.Store {
+	var out []*ssa.Store
+	for _, fn := range fns {
+		out = append(out, StoresToField(fn, func(fa *ssa.FieldAddr) bool {
+			n, owner := FieldOf(fa)
+			return n == field && (ownerPat == "" || NameMatch(owner, ownerPat))
+		})...)
+	}
+	return out
+}
